@@ -9,6 +9,8 @@
 //   ncalo K            number of calorimeter detectors (0 = no calorimeter)
 //   nact A             number of ActionDiagnostic bins (actions)
 //   stepdiag B         number of StepDiagnostic bins (0 = off)
+//   streams N M O      the tallies live in StreamStores with N streams; the
+//                      calls of iteration `it` use stream (it*M+O) % N
 //   iter               start an iteration; then any number of
 //   pre  <slot> <status> <time> x y z dx dy dz <particle> <energy>
 //   post <slot> <status> <track> <event> <parent> <nsteps> <action> <steplen>
@@ -21,6 +23,7 @@
 
 #include "corecel/data/CollectionBuilder.hh"
 #include "corecel/data/Ref.hh"
+#include "corecel/data/StreamStore.hh"
 #include "celeritas/geo/GeoParams.hh"
 #include "celeritas/global/TrackExecutor.hh"
 #include "celeritas/phys/ParticleParams.hh"
@@ -127,12 +130,13 @@ int run(std::istream& in)
     HostCRef<StepParamsData> sp_ref;
     HostVal<StepStateData> ss_val;
     HostRef<StepStateData> ss_ref;
-    HostVal<SimpleCaloStateData> calo_val;
-    HostRef<SimpleCaloStateData> calo_ref;
+    // per-stream states + merge at output, as in SimpleCalo / ActionDiagnostic /
+    // StepDiagnostic (store_.state<host>(stream_id, size); accumulate_over_streams)
+    StreamStore<SimpleCaloParamsData, SimpleCaloStateData> calo_store;
+    StreamStore<ParticleTallyParamsData, ParticleTallyStateData> ad_store, sd_store;
     HostCRef<ParticleTallyParamsData> ad_params, sd_params;
-    HostVal<ParticleTallyStateData> ad_val, sd_val;
-    HostRef<ParticleTallyStateData> ad_ref, sd_ref;
     size_type np = core->particle()->size();
+    unsigned nstreams = 1, smult = 0, soff = 0;
 
     std::vector<SlotSpec> pre, post;
     bool in_iter = false;
@@ -158,21 +162,22 @@ int run(std::istream& in)
         {
             HostVal<SimpleCaloParamsData> cp;
             cp.num_detectors = ncalo;
-            HostCRef<SimpleCaloParamsData> cpr;
-            cpr = cp;
-            resize(&calo_val, cpr, StreamId{0}, slots);
-            calo_ref = calo_val;
+            calo_store = {std::move(cp), nstreams};
         }
-        ad_params.num_bins = nact;
-        ad_params.num_particles = np;
-        resize(&ad_val, ad_params, StreamId{0}, nact * np);
-        ad_ref = ad_val;
+        {
+            HostVal<ParticleTallyParamsData> hp;
+            hp.num_bins = nact;
+            hp.num_particles = np;
+            ad_store = {std::move(hp), nstreams};
+            ad_params = ad_store.params<MemSpace::host>();
+        }
         if (stepdiag)
         {
-            sd_params.num_bins = stepdiag;
-            sd_params.num_particles = np;
-            resize(&sd_val, sd_params, StreamId{0}, stepdiag * np);
-            sd_ref = sd_val;
+            HostVal<ParticleTallyParamsData> hp;
+            hp.num_bins = stepdiag;
+            hp.num_particles = np;
+            sd_store = {std::move(hp), nstreams};
+            sd_params = sd_store.params<MemSpace::host>();
         }
         out << "NVOL " << core->geometry()->volumes().size() << '\n';
         built = true;
@@ -211,6 +216,8 @@ int run(std::istream& in)
             for (auto i : range(slots))
                 exec(CoreTrackView(pref, sref, TrackSlotId{i}));
         }
+        StreamId const sid{(static_cast<unsigned>(g_iter) * smult + soff)
+                           % nstreams};
         // --- callbacks
         StepInterface::HostStepState cb{ss_ref, StreamId{0}};
         dump_view(0, cb);
@@ -221,7 +228,8 @@ int run(std::istream& in)
             dump_detout(0, o);
             if (ncalo)
             {
-                celeritas::detail::SimpleCaloExecutor exec{ss_ref, calo_ref};
+                celeritas::detail::SimpleCaloExecutor exec{
+                    ss_ref, calo_store.state<MemSpace::host>(sid, slots)};
                 for (auto i : range(slots))
                     exec(ThreadId{i});
             }
@@ -231,7 +239,9 @@ int run(std::istream& in)
             auto exec = make_active_track_executor(
                 core->template ptr<MemSpace::native>(),
                 state->ptr(),
-                celeritas::detail::ActionDiagnosticExecutor{ad_params, ad_ref});
+                celeritas::detail::ActionDiagnosticExecutor{
+                    ad_params,
+                    ad_store.state<MemSpace::host>(sid, nact * np)});
             for (auto i : range(slots))
                 exec(ThreadId{i});
         }
@@ -240,7 +250,9 @@ int run(std::istream& in)
             auto exec = make_active_track_executor(
                 core->template ptr<MemSpace::native>(),
                 state->ptr(),
-                celeritas::detail::StepDiagnosticExecutor{sd_params, sd_ref});
+                celeritas::detail::StepDiagnosticExecutor{
+                    sd_params,
+                    sd_store.state<MemSpace::host>(sid, stepdiag * np)});
             for (auto i : range(slots))
                 exec(ThreadId{i});
         }
@@ -270,6 +282,8 @@ int run(std::istream& in)
             is >> nact;
         else if (key == "stepdiag")
             is >> stepdiag;
+        else if (key == "streams")
+            is >> nstreams >> smult >> soff;
         else if (key == "iter")
         {
             if (!built)
@@ -328,20 +342,28 @@ int run(std::istream& in)
     out << "DONE " << g_iter + 1 << " 0\n";
     if (ncalo)
     {
+        // SimpleCalo::calc_total_energy_deposition
+        std::vector<real_type> tot(ncalo, real_type{0});
+        accumulate_over_streams(
+            calo_store, [](auto& st) { return st.energy_deposition; }, &tot);
         out << "CALO 0 " << ncalo;
-        for (auto x : calo_ref.energy_deposition[AllItems<real_type, MemSpace::host>{}])
+        for (auto x : tot)
             out << ' ' << bits(x);
         out << '\n';
     }
-    auto dump_counts = [&](char const* name, auto const& ref, size_type nb) {
+    auto dump_counts = [&](char const* name, auto& store, size_type nb) {
+        // ActionDiagnostic::calc_actions / StepDiagnostic::calc_steps
+        std::vector<size_type> counts(nb * np, 0);
+        accumulate_over_streams(
+            store, [](auto& st) { return st.counts; }, &counts);
         out << name << ' ' << np << ' ' << nb;
-        for (auto c : ref.counts[AllItems<size_type, MemSpace::host>{}])
+        for (auto c : counts)
             out << ' ' << c;
         out << '\n';
     };
-    dump_counts("ACTIONDIAG", ad_ref, nact);
+    dump_counts("ACTIONDIAG", ad_store, nact);
     if (stepdiag)
-        dump_counts("STEPDIAG", sd_ref, stepdiag);
+        dump_counts("STEPDIAG", sd_store, stepdiag);
     return 0;
 }
 }  // namespace
@@ -354,10 +376,11 @@ int main(int argc, char** argv)
     // stdin holds one or more configurations, each introduced by a line
     // "=== <problem>"; the output of each is introduced by "=== CONFIG <k>"
     std::ios::sync_with_stdio(false);
+    std::streambuf* old_buf = nullptr;
     if (argc > 1)
     {
         outfile.open(argv[1]);
-        std::cout.rdbuf(outfile.rdbuf());
+        old_buf = std::cout.rdbuf(outfile.rdbuf());
     }
     std::vector<std::pair<std::string, std::string>> configs;
     std::string line;
@@ -393,5 +416,10 @@ int main(int argc, char** argv)
         }
     }
     std::cout.flush();
+    if (old_buf)
+    {
+        // outfile is destroyed before the static destructors run
+        std::cout.rdbuf(old_buf);
+    }
     return 0;
 }
